@@ -382,6 +382,7 @@ class Scenario(object):
         w.wire_hooks.append(lambda direction, addr, d, client, n: recent.append((direction, addr, d)) if direction == "c2s" else None)
         next_sender = [1]
         rogues = []
+        blocked_live = []
         ra_in_temp = lambda a: a in w.ctxt.temp_connections
 
         def new_client(addr):
@@ -438,7 +439,15 @@ class Scenario(object):
                 self.c.inc("act_go_silent")
             elif x < 0.57 and w.ctxt.connections:
                 self.kick.append(r.choice(list(w.ctxt.connections.values())))
-            elif x < 0.585 and len(rogues) < 6:
+            elif x < 0.59 and len(blocked_live) < 2 and live:
+                # the operator block-lists the IP address of a client that is connected right now: its datagrams are discarded from
+                # here on, the server loop (and only it) ends the session once the silence timeout is over
+                bc = r.choice(list(live.values()))
+                if bc.addr in w.ctxt.connections and bc.addr[0] not in w.ctxt.blocklist:
+                    w.ctxt.setBlockList(set(w.ctxt.blocklist) | {bc.addr[0]})
+                    blocked_live.append(bc.addr)
+                    self.c.inc("act_blocklist_connected_client")
+            elif x < 0.605 and len(rogues) < 6:
                 # a rogue peer: the hello exchange gives it a session key, its challenge response never arrives
                 ra = ("10.3.9.%d" % (len(rogues) + 2), 31000 + len(rogues))
                 rc = L.ClientEnd(w, ra, 251, pinned=True)
@@ -635,7 +644,7 @@ def finish(tier, seed, results):
                          "server_disconnect_in_update", "token_draws_repeating_a_live_token", "handler_raised_in_connect",
                          "handler_raised_in_message", "handler_raised_in_update", "handler_raised_in_disconnect", "connected_at_shutdown",
                          "flow_after_exception_checked", "messages_attributed_to_their_client", "act_hostile_datagram", "realnet_runs",
-                         "realnet_sends", "silence_timeouts_checked", "junk_from_silent_addresses", "rogue_sealed_datagrams", "last_tick_kick_chains",
+                         "realnet_sends", "silence_timeouts_checked", "junk_from_silent_addresses", "rogue_sealed_datagrams", "act_blocklist_connected_client", "last_tick_kick_chains",
                          "server_disconnect_in_disconnect", "shutdown_called_from_handler"], inconclusive)
     cov = {
         "evaluations": m["evaluations"],
